@@ -267,8 +267,58 @@ class Composer(Client):
 class Rewriter(Client):
     name = "rewriter"
 
+    def __init__(self, *a):
+        super().__init__(*a)
+        self.queue: list = []
+
+    def swap_chain(self):
+        """Several overlapping mode swaps separated by blocking components,
+        then a compression: the interesting inputs of compress_mode_swaps."""
+        r, w = self.rng, self.w
+        cands = self.own_circuits(lambda cid, c: n_user(c) >= 3)
+        if not cands:
+            return None
+        cid = self.pick(cands)
+        nu = n_user(w.pool["c"][cid])
+        q = []
+        for _ in range(r.randint(3, 6)):
+            x = r.random()
+            if x < 0.6:
+                a = r.randrange(nu - 1)
+                if r.random() < 0.7:
+                    sw = [[a, a + 1], [a + 1, a]]
+                else:
+                    ms = r.sample(range(nu), min(nu, 3))
+                    sw = [[ms[i], ms[(i + 1) % len(ms)]] for i in range(len(ms))]
+                q.append({"op": "mode_swaps", "c": cid, "swaps": sw})
+            elif x < 0.8:
+                q.append({"op": "ps", "c": cid, "m": r.randrange(nu),
+                          "phi": round(r.uniform(0.1, 6), 3)})
+            elif x < 0.9:
+                a, b = r.sample(range(nu), 2)
+                q.append({"op": "bs", "c": cid, "m1": a, "m2": b,
+                          "r": round(r.uniform(0.1, 0.9), 3)})
+            else:
+                q.append({"op": "barrier", "c": cid})
+        q.append({"op": "compress", "c": cid})
+        self.queue = q
+        w.stats["intent:swap_chain"] += 1
+        return self.next_queued()
+
+    def next_queued(self):
+        while self.queue:
+            o = self.queue.pop(0)
+            if self.w.has("c", o["c"]):
+                return o
+        return None
+
     def propose(self):
         r, w = self.rng, self.w
+        o = self.next_queued()
+        if o is not None:
+            return o
+        if r.random() < 0.12:
+            return self.swap_chain()
         k = r.choice(["unpack", "compress", "remove_nonadj", "copy", "copy",
                       "copyf"])
         if k in ("copy", "copyf"):
